@@ -429,6 +429,60 @@ KNOWN_WHILE = {
 }
 
 
+def classify_while(node: ast.While):
+    """('ok' | 'nonterminating' | 'undecided', reason) from the shape of the loop alone."""
+    test = node.test
+    body_nodes = [n for b in node.body for n in ast.walk(b)]
+    exits = [n for n in body_nodes if isinstance(n, (ast.Break, ast.Return, ast.Raise))]
+    const_true = isinstance(test, ast.Constant) and bool(test.value)
+    if const_true:
+        if not exits:
+            return 'nonterminating', 'constant-true test and no break/return/raise in the body'
+        return 'undecided', 'exit only through break/return'
+    roots = set()
+    for n in ast.walk(test):
+        if isinstance(n, ast.Name):
+            roots.add(n.id)
+    assigned = set()
+    for n in body_nodes:
+        if isinstance(n, ast.Name) and isinstance(n.ctx, ast.Store):
+            assigned.add(n.id)
+        if isinstance(n, (ast.Attribute, ast.Subscript)) and isinstance(n.ctx, ast.Store):
+            r = n
+            while isinstance(r, (ast.Attribute, ast.Subscript)):
+                r = r.value
+            if isinstance(r, ast.Name):
+                assigned.add(r.id)
+    calls = [n for n in body_nodes if isinstance(n, ast.Call)] + [n for n in ast.walk(test) if isinstance(n, ast.Call)]
+    if not (roots & assigned) and not calls and not exits:
+        return 'nonterminating', 'nothing the test reads is changed in the body'
+    # linked traversal: v is not None ... v = <v-expr>.GetLeft()/GetRight()/.next
+    for n in ast.walk(test):
+        if isinstance(n, ast.Compare) and isinstance(n.left, ast.Name) and len(n.ops) == 1 and \
+                isinstance(n.ops[0], ast.IsNot) and isinstance(n.comparators[0], ast.Constant) and \
+                n.comparators[0].value is None:
+            v = n.left.id
+            for b in node.body:
+                for a in ast.walk(b):
+                    if isinstance(a, ast.Assign) and any(isinstance(t, ast.Name) and t.id == v for t in a.targets):
+                        src = {x.id for x in ast.walk(a.value) if isinstance(x, ast.Name)}
+                        nm = {x.func.attr for x in ast.walk(a.value) if isinstance(x, ast.Call)
+                              and isinstance(x.func, ast.Attribute)} | \
+                             {x.attr for x in ast.walk(a.value) if isinstance(x, ast.Attribute)}
+                        if nm & {'GetLeft', 'GetRight'} and (v in src or src & assigned):
+                            return 'ok', f'neighbour-link traversal of {v} (finite: the links are acyclic, C06)'
+    # counter
+    for n in ast.walk(test):
+        if isinstance(n, ast.Compare) and len(n.ops) == 1 and isinstance(n.ops[0], (ast.Lt, ast.LtE, ast.Gt, ast.GtE)):
+            for side in (n.left, n.comparators[0]):
+                if isinstance(side, ast.Name):
+                    for a in body_nodes:
+                        if isinstance(a, ast.AugAssign) and isinstance(a.target, ast.Name) and a.target.id == side.id \
+                                and isinstance(a.op, (ast.Add, ast.Sub)) and isinstance(a.value, ast.Constant):
+                            return 'ok', f'counter {side.id} moves by a constant every trip'
+    return 'undecided', 'shape not recognised'
+
+
 def r03_7(ctx: Ctx):
     rid = 'R03.7'
     ctx.rule(rid, 'ranking: the only unbounded loop reachable from the global search is the solve loop itself, '
@@ -451,10 +505,18 @@ def r03_7(ctx: Ctx):
                 n += 1
                 if f.short in KNOWN_WHILE:
                     ctx.ok(rid, f.short, f'while loop classified: {KNOWN_WHILE[f.short]}', f.loc(node))
-                else:
+                    continue
+                verdict, why = classify_while(node)
+                if verdict == 'ok':
+                    ctx.ok(rid, f.short, f'while loop classified: {why}', f.loc(node))
+                elif verdict == 'nonterminating':
                     ctx.fail(rid, f.short, f.loc(node),
-                             f'unclassified while loop reachable from Solve: while {norm_stmt(node.test)}',
+                             f'while {norm_stmt(node.test)} reachable from Solve cannot terminate once entered: {why}',
                              key=f'{rid}::{f.short}::while {norm_stmt(node.test)}')
+                else:
+                    ctx.note(f'{f.loc(node)}: termination of `while {norm_stmt(node.test)}` in {f.short} is not '
+                             f'decided ({why})')
+                    ctx.extra_coverage.setdefault('while_loops_not_decided', []).append(f'{f.short}: {norm_stmt(node.test)}')
     ctx.floor(rid, 'while loops reachable from the solve driver', n, 1)
     # recursion on the global path
     g = ctx.pta.call_graph()
